@@ -84,6 +84,8 @@ def rnd_scalar(rng, ty, nan):
 
 def rnd_value(rng, nan=False):
     """(type tag, payload)"""
+    if nan and rng.chance(1, 3):
+        return rng.choice([("d", rng.choice(NANS)), ("ad", [rng.choice(DBLS), rng.choice(NANS)])])
     if rng.chance(2, 3):
         ty = rng.choice(SCAL)
         return (ty, rnd_scalar(rng, ty, nan))
